@@ -130,7 +130,13 @@ impl BricksDomain {
                         }
                         // --Step 4-- Check whether two successive bricks have equal content.
                         // If so, merge them with the same content and add their min and max values together.
-                        else if current_brick.get_sequence() == next_brick.get_sequence() {
+                        // Only bricks of the normal form [S]^{0,max} are merged: merging [S]^{1,1} with
+                        // [S]^{0,max} yields [S]^{1,max+1}, which Step 5 breaks into the same two bricks again,
+                        // so that the normalization would never reach a fixpoint.
+                        else if current_brick.get_sequence() == next_brick.get_sequence()
+                            && current_brick.get_min() == 0
+                            && next_brick.get_min() == 0
+                        {
                             let merged_brick =
                                 current_brick.merge_bricks_with_equal_content(next_brick);
                             normalized[index] = BrickDomain::Value(merged_brick);
